@@ -1,14 +1,15 @@
 #!/bin/bash
 # setup_cmd: build (full .vo, no -vos) the Coq development of every claimed property and run the gate on it
 set -e
-cd /verif
-ids=$(/venv/bin/python -c "import json; print(' '.join(c['property_id'] for c in json.load(open('/verif/MANIFEST.json'))['checks']))")
+V="$(cd "$(dirname "$0")/.." && pwd)"
+cd "$V"
+ids=$(/venv/bin/python -c "import json; print(' '.join(c['property_id'] for c in json.load(open('MANIFEST.json'))['checks']))")
 tools/mkcoqproject.sh
 cd coq
 targets=""
 for i in $ids; do targets="$targets Properties/$i.vo"; done
 timeout 3000 make -j16 $targets
-cd /verif
+cd "$V"
 tools/gate.sh $ids
 mkdir -p .cache/numba evidence replays
 echo "setup ok: $ids"
